@@ -426,6 +426,16 @@ func (f *Frame) callContract(i *ssa.Call, g *ssa.Function, fc2 *FuncContract, ke
 		}
 	}
 	vals := f.resultVals(resT, st, r, short)
+	{
+		if f.calls == nil {
+			f.calls = map[string][]callRec{}
+		}
+		nm := short
+		if j := strings.LastIndex(nm, "."); j >= 0 {
+			nm = nm[j+1:]
+		}
+		f.calls[nm] = append(f.calls[nm], callRec{blk: f.cur, res: vals, args: args})
+	}
 	for k, v := range vals {
 		c.assumeTyped(st, r, v, resT.At(k).Type())
 	}
